@@ -1,5 +1,1720 @@
-//! (stub) filled in by the corresponding builder
-pub fn main(_args: &[String]) {
-    eprintln!("sealdrv: not implemented yet");
-    std::process::exit(2);
+//! C13: what leaves the host is sealed, version-bound and tamper-evident.
+//!
+//! One engine executes behaviours (sequences of the actions of spec/Seal.tla) on four
+//! "backends": `raw` (the hooks `server::verif::{seal, unseal}`), `cloud` (CloudServer over the
+//! in-memory object store of hook H1), `http` (the real HTTP client against a recording server in
+//! this file) and `git` (GitSyncServer, local-only).  Everything that gets STORED (object values,
+//! request bodies, files) is decoded by an INDEPENDENT implementation of docs/src/encryption.md
+//! written here directly on `ring` primitives, and logged as a symbolic term for TraceSeal.tla.
+//!
+//! Sub-commands:
+//!   seal-replay   --in stimuli.ndjson --out trace.ndjson --dir D      (behaviours from MCSeal)
+//!   seal-vectors  --out trace.ndjson --dump blobs.ndjson [--thorough] (raw hook, payload classes,
+//!                                                                      full tamper sweep)
+//!   seal-backends --out trace.ndjson --dir D [--thorough]             (three real backends)
+use async_trait::async_trait;
+use ring::rand::SecureRandom;
+use ring::{aead, pbkdf2};
+use serde_json::{json, Value};
+use std::collections::HashMap;
+use std::io::{BufRead, BufReader, Read, Write};
+use std::net::{TcpListener, TcpStream};
+use std::path::{Path, PathBuf};
+use std::sync::{Arc, Mutex};
+use taskchampion::server::verif::{cloud_server, init_store, seal, unseal, Fault, Gate, MemObject, SharedStore};
+use taskchampion::server::{AddVersionResult, GetVersionResult, Server, ServerConfig};
+use taskchampion::Uuid;
+
+const MARKER: &str = "TCVERIF-MARKER-buy-milk";
+
+// ------------------------------------------------------------------------------------------
+// the independent implementation of docs/src/encryption.md
+
+/// "The client derives the 32-byte encryption key from the configured encryption secret using
+/// PBKDF2 with HMAC-SHA256 and 600,000 iterations."
+fn indep_derive(secret: &[u8], salt: &[u8]) -> aead::LessSafeKey {
+    let mut key = [0u8; 32];
+    pbkdf2::derive(
+        pbkdf2::PBKDF2_HMAC_SHA256,
+        std::num::NonZeroU32::new(600_000).unwrap(),
+        salt,
+        secret,
+        &mut key,
+    );
+    aead::LessSafeKey::new(aead::UnboundKey::new(&aead::CHACHA20_POLY1305, &key).unwrap())
+}
+
+/// "the AAD is always 17 bytes of the form: app_id (byte) - always 1; version_id (16 bytes)"
+fn indep_aad(vid: Uuid) -> [u8; 17] {
+    let mut aad = [0u8; 17];
+    aad[0] = 1;
+    aad[1..].copy_from_slice(vid.as_bytes());
+    aad
+}
+
+#[derive(Default)]
+struct Indep {
+    keys: HashMap<(Vec<u8>, Vec<u8>), aead::LessSafeKey>,
+}
+
+impl Indep {
+    fn key(&mut self, secret: &[u8], salt: &[u8]) -> &aead::LessSafeKey {
+        self.keys
+            .entry((secret.to_vec(), salt.to_vec()))
+            .or_insert_with(|| indep_derive(secret, salt))
+    }
+
+    /// "version (byte) - format version (always 1); nonce (12 bytes); ciphertext (remaining)"
+    fn seal(&mut self, secret: &[u8], salt: &[u8], vid: Uuid, pt: &[u8]) -> Vec<u8> {
+        let mut nonce = [0u8; 12];
+        ring::rand::SystemRandom::new().fill(&mut nonce).unwrap();
+        let mut buf = pt.to_vec();
+        let key = self.key(secret, salt);
+        let tag = key
+            .seal_in_place_separate_tag(
+                aead::Nonce::assume_unique_for_key(nonce),
+                aead::Aad::from(indep_aad(vid)),
+                &mut buf,
+            )
+            .unwrap();
+        let mut out = vec![1u8];
+        out.extend_from_slice(&nonce);
+        out.extend_from_slice(&buf);
+        out.extend_from_slice(tag.as_ref());
+        out
+    }
+
+    fn open(&mut self, secret: &[u8], salt: &[u8], vid: Uuid, blob: &[u8]) -> Option<Vec<u8>> {
+        if blob.len() < 1 + 12 + 16 || blob[0] != 1 {
+            return None;
+        }
+        let mut nonce = [0u8; 12];
+        nonce.copy_from_slice(&blob[1..13]);
+        let mut buf = blob[13..].to_vec();
+        let key = self.key(secret, salt);
+        let n = key
+            .open_in_place(
+                aead::Nonce::assume_unique_for_key(nonce),
+                aead::Aad::from(indep_aad(vid)),
+                &mut buf,
+            )
+            .ok()?
+            .len();
+        buf.truncate(n);
+        Some(buf)
+    }
+}
+
+// ------------------------------------------------------------------------------------------
+// small helpers
+
+fn hex(b: &[u8]) -> String {
+    b.iter().map(|x| format!("{x:02x}")).collect()
+}
+
+const B64: &[u8; 64] = b"ABCDEFGHIJKLMNOPQRSTUVWXYZabcdefghijklmnopqrstuvwxyz0123456789+/";
+
+fn b64enc(data: &[u8]) -> String {
+    let mut out = String::with_capacity(data.len() * 4 / 3 + 4);
+    for ch in data.chunks(3) {
+        let b = [ch[0], *ch.get(1).unwrap_or(&0), *ch.get(2).unwrap_or(&0)];
+        let n = ((b[0] as u32) << 16) | ((b[1] as u32) << 8) | b[2] as u32;
+        out.push(B64[(n >> 18) as usize & 63] as char);
+        out.push(B64[(n >> 12) as usize & 63] as char);
+        out.push(if ch.len() > 1 { B64[(n >> 6) as usize & 63] as char } else { '=' });
+        out.push(if ch.len() > 2 { B64[n as usize & 63] as char } else { '=' });
+    }
+    out
+}
+
+fn b64dec(s: &str) -> Option<Vec<u8>> {
+    let mut out = Vec::with_capacity(s.len() * 3 / 4);
+    let mut acc = 0u32;
+    let mut bits = 0;
+    for c in s.bytes() {
+        if c == b'=' {
+            break;
+        }
+        let v = B64.iter().position(|x| *x == c)? as u32;
+        acc = (acc << 6) | v;
+        bits += 6;
+        if bits >= 8 {
+            bits -= 8;
+            out.push((acc >> bits) as u8);
+            acc &= (1 << bits) - 1;
+        }
+    }
+    Some(out)
+}
+
+fn contains(hay: &[u8], needle: &[u8]) -> bool {
+    if needle.is_empty() || hay.len() < needle.len() {
+        return false;
+    }
+    hay.windows(needle.len()).any(|w| w == needle)
+}
+
+fn run_git(dir: &Path, args: &[&str]) {
+    let st = std::process::Command::new("git")
+        .current_dir(dir)
+        .args(args)
+        .env("GIT_CONFIG_GLOBAL", "/dev/null")
+        .env("GIT_CONFIG_SYSTEM", "/dev/null")
+        .stdout(std::process::Stdio::null())
+        .stderr(std::process::Stdio::null())
+        .status()
+        .expect("git");
+    assert!(st.success(), "git {args:?} failed in {dir:?}");
+}
+
+/// await a future, turning a panic inside it into Err(message)
+async fn catch<F: std::future::Future>(f: F) -> Result<F::Output, String> {
+    use std::future::Future;
+    use std::pin::Pin;
+    use std::task::{Context, Poll};
+    struct Catch<F>(Pin<Box<F>>);
+    impl<F: Future> Future for Catch<F> {
+        type Output = Result<F::Output, String>;
+        fn poll(mut self: Pin<&mut Self>, cx: &mut Context<'_>) -> Poll<Self::Output> {
+            let inner = &mut self.0;
+            match std::panic::catch_unwind(std::panic::AssertUnwindSafe(|| inner.as_mut().poll(cx))) {
+                Ok(Poll::Ready(v)) => Poll::Ready(Ok(v)),
+                Ok(Poll::Pending) => Poll::Pending,
+                Err(e) => Poll::Ready(Err(e
+                    .downcast_ref::<String>()
+                    .cloned()
+                    .or_else(|| e.downcast_ref::<&str>().map(|s| s.to_string()))
+                    .unwrap_or_else(|| "panic".into()))),
+            }
+        }
+    }
+    Catch(Box::pin(f)).await
+}
+
+// ------------------------------------------------------------------------------------------
+// model tokens -> concrete values
+
+fn secret_bytes(tok: &str) -> Vec<u8> {
+    match tok {
+        "k0" => vec![],
+        "k1" => b"verif-secret-one".to_vec(),
+        "k2" => b"verif-secret-two".to_vec(),
+        "k3" => (0u16..200).map(|i| (i * 7 % 256) as u8).collect(), // long, not UTF-8
+        other => other.as_bytes().to_vec(),
+    }
+}
+
+fn fixed_salt(tok: &str) -> Vec<u8> {
+    match tok {
+        "s1" => b"\x5a\x17\x11\x11\x00\x01\x40\x02\x80\x03\x00\x04\x00\x05\x00\x06".to_vec(),
+        "s2" => b"\x5a\x17\x22\x22\x00\x01\x40\x02\x80\x03\x00\x04\x00\x05\x00\x07".to_vec(),
+        "s3" => (0u8..32).collect(), // longer than 16 bytes (raw / object store only)
+        other => other.as_bytes().to_vec(),
+    }
+}
+
+fn payload_bytes(tok: &str) -> Vec<u8> {
+    let task = "7a5c0000-0000-4000-8000-000000000001";
+    let op = |n: usize| {
+        format!(
+            "{{\"Update\":{{\"uuid\":\"{task}\",\"property\":\"description\",\"value\":\"{MARKER} #{n}\",\"timestamp\":\"2021-10-11T12:47:07Z\"}}}}"
+        )
+    };
+    match tok {
+        "p0" => vec![],
+        "p1" => b"{".to_vec(),
+        "p2" => format!("{{\"operations\":[{}]}}", op(2)).into_bytes(),
+        "p100" => {
+            let mut s = format!("{{\"operations\":[{{\"Delete\":{{\"uuid\":\"{task}\"}}}}],\"x\":\"{MARKER}");
+            while s.len() < 98 {
+                s.push('.');
+            }
+            s.truncate(98);
+            s.push_str("\"}");
+            assert_eq!(s.len(), 100);
+            s.into_bytes()
+        }
+        "p70k" => {
+            let mut s = String::from("{\"operations\":[");
+            let mut n = 0;
+            while s.len() < 69_000 {
+                if n > 0 {
+                    s.push(',');
+                }
+                s.push_str(&op(n));
+                n += 1;
+            }
+            s.push_str("],\"pad\":\"");
+            while s.len() < 69_998 {
+                s.push('x');
+            }
+            s.push_str("\"}");
+            assert_eq!(s.len(), 70_000);
+            s.into_bytes()
+        }
+        other => format!("{{\"operations\":[],\"note\":\"{MARKER} {other}\"}}").into_bytes(),
+    }
+}
+
+const PAYLOAD_TOKENS: &[&str] = &["p0", "p1", "p2", "p100", "p70k"];
+
+fn payload_token(bytes: &[u8]) -> String {
+    for t in PAYLOAD_TOKENS {
+        if payload_bytes(t) == bytes {
+            return t.to_string();
+        }
+    }
+    format!("?unknown({} bytes)", bytes.len())
+}
+
+type Lab = (String, String, String); // kind, parent token, vid token
+type Key = (String, String); // secret token, salt token
+
+fn lab_of(v: &Value) -> Lab {
+    let a = v.as_array().expect("label");
+    (
+        a[0].as_str().unwrap().to_string(),
+        a[1].as_str().unwrap().to_string(),
+        a[2].as_str().unwrap().to_string(),
+    )
+}
+fn key_of(v: &Value) -> Key {
+    let a = v.as_array().expect("key");
+    (a[0].as_str().unwrap().to_string(), a[1].as_str().unwrap().to_string())
+}
+fn lab_json(l: &Lab) -> Value {
+    json!([l.0, l.1, l.2])
+}
+fn key_json(k: &Key) -> Value {
+    json!([k.0, k.1])
+}
+
+// ------------------------------------------------------------------------------------------
+// object store gate (never blocks, never fails)
+
+struct PassGate;
+#[async_trait]
+impl Gate for PassGate {
+    async fn request(&mut self, _client: usize, _req: Value) -> Fault {
+        Fault::None
+    }
+    fn reply(&mut self, _client: usize, _res: Value) {}
+}
+
+// ------------------------------------------------------------------------------------------
+// a recording HTTP sync server (docs/src/http.md); the harness owns its tables
+
+#[derive(Default)]
+struct HttpState {
+    versions: Vec<(Uuid, Uuid, Vec<u8>)>, // parent, id, body
+    snapshot: Option<(Uuid, Vec<u8>)>,
+    /// every request as received: (request line + headers, body)
+    requests: Vec<(String, Vec<u8>)>,
+}
+
+fn http_respond(stream: &mut TcpStream, status: &str, headers: &[(String, String)], body: &[u8]) {
+    let mut out = format!("HTTP/1.1 {status}\r\nConnection: close\r\nContent-Length: {}\r\n", body.len());
+    for (k, v) in headers {
+        out.push_str(&format!("{k}: {v}\r\n"));
+    }
+    out.push_str("\r\n");
+    let _ = stream.write_all(out.as_bytes());
+    let _ = stream.write_all(body);
+    let _ = stream.flush();
+}
+
+fn http_handle(mut stream: TcpStream, state: Arc<Mutex<HttpState>>) {
+    let mut reader = BufReader::new(stream.try_clone().unwrap());
+    let mut line = String::new();
+    if reader.read_line(&mut line).is_err() {
+        return;
+    }
+    let mut head = line.clone();
+    let parts: Vec<String> = line.split_whitespace().map(|s| s.to_string()).collect();
+    if parts.len() < 2 {
+        return;
+    }
+    let (method, path) = (parts[0].clone(), parts[1].clone());
+    let mut headers: HashMap<String, String> = HashMap::new();
+    loop {
+        let mut h = String::new();
+        if reader.read_line(&mut h).is_err() || h == "\r\n" || h == "\n" || h.is_empty() {
+            break;
+        }
+        head.push_str(&h);
+        if let Some((k, v)) = h.split_once(':') {
+            headers.insert(k.trim().to_lowercase(), v.trim().to_string());
+        }
+    }
+    let len: usize = headers.get("content-length").and_then(|v| v.parse().ok()).unwrap_or(0);
+    let mut body = vec![0u8; len];
+    if len > 0 && reader.read_exact(&mut body).is_err() {
+        return;
+    }
+    let mut st = state.lock().unwrap();
+    if method == "POST" || st.requests.len() < 400 {
+        st.requests.push((head.clone(), body.clone()));
+    }
+    let seg = "application/vnd.taskchampion.history-segment".to_string();
+    let snapct = "application/vnd.taskchampion.snapshot".to_string();
+    let last = path.rsplit('/').next().unwrap_or("").to_string();
+    let (status, hdrs, rbody): (String, Vec<(String, String)>, Vec<u8>) =
+        if method == "POST" && path.contains("/v1/client/add-version/") {
+            match Uuid::parse_str(&last) {
+                Err(_) => ("400 Bad Request".into(), vec![], vec![]),
+                Ok(parent) => {
+                    let latest = st.versions.last().map(|v| v.1);
+                    if headers.get("content-type") != Some(&seg) {
+                        ("400 Bad Request".into(), vec![], vec![])
+                    } else if latest.is_some() && latest != Some(parent) {
+                        (
+                            "409 Conflict".into(),
+                            vec![("X-Parent-Version-Id".into(), latest.unwrap().to_string())],
+                            vec![],
+                        )
+                    } else {
+                        let id = Uuid::new_v4();
+                        st.versions.push((parent, id, body));
+                        ("200 OK".into(), vec![("X-Version-Id".into(), id.to_string())], vec![])
+                    }
+                }
+            }
+        } else if method == "GET" && path.contains("/v1/client/get-child-version/") {
+            match Uuid::parse_str(&last) {
+                Err(_) => ("400 Bad Request".into(), vec![], vec![]),
+                Ok(parent) => match st.versions.iter().find(|v| v.0 == parent) {
+                    Some(v) => (
+                        "200 OK".into(),
+                        vec![
+                            ("Content-Type".into(), seg.clone()),
+                            ("X-Version-Id".into(), v.1.to_string()),
+                            ("X-Parent-Version-Id".into(), v.0.to_string()),
+                        ],
+                        v.2.clone(),
+                    ),
+                    None => ("404 Not Found".into(), vec![], vec![]),
+                },
+            }
+        } else if method == "POST" && path.contains("/v1/client/add-snapshot/") {
+            match Uuid::parse_str(&last) {
+                Err(_) => ("400 Bad Request".into(), vec![], vec![]),
+                Ok(ver) => {
+                    if headers.get("content-type") != Some(&snapct) {
+                        ("400 Bad Request".into(), vec![], vec![])
+                    } else {
+                        st.snapshot = Some((ver, body));
+                        ("200 OK".into(), vec![], vec![])
+                    }
+                }
+            }
+        } else if method == "GET" && path.ends_with("/v1/client/snapshot") {
+            match &st.snapshot {
+                Some((v, b)) => (
+                    "200 OK".into(),
+                    vec![("Content-Type".into(), snapct.clone()), ("X-Version-Id".into(), v.to_string())],
+                    b.clone(),
+                ),
+                None => ("404 Not Found".into(), vec![], vec![]),
+            }
+        } else {
+            ("404 Not Found".into(), vec![], vec![])
+        };
+    drop(st);
+    http_respond(&mut stream, &status, &hdrs, &rbody);
+}
+
+fn http_server() -> (String, Arc<Mutex<HttpState>>) {
+    let listener = TcpListener::bind("127.0.0.1:0").expect("bind");
+    let port = listener.local_addr().unwrap().port();
+    let state = Arc::new(Mutex::new(HttpState::default()));
+    let st = state.clone();
+    std::thread::spawn(move || {
+        for s in listener.incoming().flatten() {
+            let st = st.clone();
+            std::thread::spawn(move || http_handle(s, st));
+        }
+    });
+    (format!("http://127.0.0.1:{port}"), state)
+}
+
+// ------------------------------------------------------------------------------------------
+// the engine
+
+enum Store {
+    Raw { blobs: HashMap<Lab, Vec<u8>> },
+    Cloud { store: SharedStore },
+    Http,
+    Git,
+}
+
+enum ReadOut {
+    Returned { parent: Option<Uuid>, vid: Uuid, data: Vec<u8> },
+    NotFound,
+    Error(String),
+    Panic(String),
+}
+
+struct Ctx {
+    indep: Indep,
+    dir: PathBuf,
+    out: Vec<Value>,
+    /// process-wide: the HTTP server, its clients, the git repository and its handles
+    http: Option<(String, Arc<Mutex<HttpState>>)>,
+    http_clients: HashMap<Key, Box<dyn Server>>,
+    git_dir: Option<PathBuf>,
+    git_salt: Vec<u8>,
+    git_handles: HashMap<Key, Box<dyn Server>>,
+    /// the git working tree has changes the harness has not committed yet
+    git_dirty: bool,
+    in_sweep: bool,
+    /// byte positions changed by single mutations in this behaviour: a later mutation never
+    /// touches them again, so that two mutations cannot cancel each other
+    touched: std::collections::HashSet<usize>,
+    /// per behaviour
+    backend: String,
+    store: Store,
+    vids: HashMap<String, Uuid>,
+    nver: usize,
+    step_no: u64,
+    seed: u64,
+    threads: usize,
+    dump: Vec<Value>,
+}
+
+fn vname(parent: Uuid, child: Uuid) -> String {
+    format!("v-{}-{}", parent.as_simple(), child.as_simple())
+}
+fn sname(v: Uuid) -> String {
+    format!("s-{}", v.as_simple())
+}
+
+impl Ctx {
+    fn new(dir: PathBuf, seed: u64) -> Ctx {
+        Ctx {
+            indep: Indep::default(),
+            dir,
+            out: vec![],
+            http: None,
+            http_clients: HashMap::new(),
+            git_dir: None,
+            git_salt: vec![],
+            git_handles: HashMap::new(),
+            git_dirty: false,
+            in_sweep: false,
+            touched: Default::default(),
+            backend: String::new(),
+            store: Store::Http,
+            vids: HashMap::new(),
+            nver: 0,
+            step_no: 0,
+            seed,
+            threads: 8,
+            dump: vec![],
+        }
+    }
+
+    fn rnd(&mut self, n: usize) -> usize {
+        // splitmix64 on (seed, step)
+        self.step_no += 1;
+        let mut z = self.seed.wrapping_add(self.step_no.wrapping_mul(0x9E3779B97F4A7C15));
+        z = (z ^ (z >> 30)).wrapping_mul(0xBF58476D1CE4E5B9);
+        z = (z ^ (z >> 27)).wrapping_mul(0x94D049BB133111EB);
+        z ^= z >> 31;
+        if n == 0 { 0 } else { (z % n as u64) as usize }
+    }
+
+    fn vid(&mut self, tok: &str) -> Uuid {
+        if tok == "v0" {
+            return Uuid::nil();
+        }
+        *self.vids.entry(tok.to_string()).or_insert_with(Uuid::new_v4)
+    }
+
+    fn salt(&self, tok: &str) -> Vec<u8> {
+        if self.backend == "git" && tok == "s1" {
+            return self.git_salt.clone();
+        }
+        fixed_salt(tok)
+    }
+
+    /// the documented binding (used only to craft `Foreign` values)
+    fn doc_bind(&mut self, lab: &Lab) -> Uuid {
+        if self.backend == "http" && lab.0 == "v" {
+            self.vid(&lab.1.clone())
+        } else {
+            self.vid(&lab.2.clone())
+        }
+    }
+
+    // ---- git repository (one per process, reset per behaviour) ----
+
+    fn git_meta_write(&self, latest: Uuid, salt: &[u8]) {
+        let d = self.git_dir.as_ref().unwrap();
+        let m = json!({"latest_version": latest.as_simple().to_string(), "salt": b64enc(salt)});
+        std::fs::write(d.join("meta"), serde_json::to_vec(&m).unwrap()).unwrap();
+    }
+
+    fn git_meta_read(&self) -> (Uuid, Vec<u8>) {
+        let d = self.git_dir.as_ref().unwrap();
+        let m: Value = serde_json::from_slice(&std::fs::read(d.join("meta")).unwrap()).unwrap();
+        (
+            Uuid::parse_str(m["latest_version"].as_str().unwrap()).unwrap(),
+            b64dec(m["salt"].as_str().unwrap()).unwrap(),
+        )
+    }
+
+    async fn git_open(&mut self, key: &Key) -> Result<(), String> {
+        if self.git_handles.contains_key(key) {
+            return Ok(());
+        }
+        // opening a repository discards uncommitted changes: commit what the harness planted
+        self.git_commit();
+        let d = self.git_dir.clone().unwrap();
+        let srv = ServerConfig::Git {
+            local_path: d,
+            branch: "main".into(),
+            remote: None,
+            local_only: true,
+            encryption_secret: secret_bytes(&key.0),
+            git_path: None,
+        }
+        .into_server()
+        .await
+        .map_err(|e| format!("{e:#}"))?;
+        self.git_handles.insert(key.clone(), srv);
+        Ok(())
+    }
+
+    async fn git_reset(&mut self) {
+        if self.git_dir.is_none() {
+            let d = self.dir.join("gitrepo");
+            let _ = std::fs::remove_dir_all(&d);
+            self.git_dir = Some(d);
+            // the real code creates the repository and draws the salt
+            self.git_open(&("k1".into(), "s1".into())).await.expect("git open");
+            self.git_salt = self.git_meta_read().1;
+        }
+        let d = self.git_dir.clone().unwrap();
+        for e in std::fs::read_dir(&d).unwrap().flatten() {
+            let n = e.file_name().to_string_lossy().to_string();
+            if n.starts_with("v-") || n == "snapshot" {
+                let _ = std::fs::remove_file(e.path());
+            }
+        }
+        self.git_meta_write(Uuid::nil(), &self.git_salt.clone());
+        self.git_dirty = true;
+    }
+
+    /// stage and commit whatever the harness changed in the working tree
+    fn git_commit(&mut self) {
+        if self.git_dirty && self.git_dir.as_ref().map(|d| d.join(".git").exists()).unwrap_or(false) {
+            let d = self.git_dir.clone().unwrap();
+            run_git(&d, &["add", "-A"]);
+            run_git(&d, &["commit", "-q", "--allow-empty", "-m", "harness: planted"]);
+        }
+        self.git_dirty = false;
+    }
+
+    /// make the `meta` file carry the salt of `key` (the salt is part of the untrusted storage)
+    fn git_set_salt(&mut self, key: &Key) {
+        let (latest, cur) = self.git_meta_read();
+        let want = self.salt(&key.1);
+        if cur != want {
+            self.git_meta_write(latest, &want);
+            self.git_dirty = true;
+        }
+    }
+
+    // ---- http ----
+
+    fn http_state(&mut self) -> Arc<Mutex<HttpState>> {
+        if self.http.is_none() {
+            self.http = Some(http_server());
+        }
+        self.http.as_ref().unwrap().1.clone()
+    }
+
+    async fn http_open(&mut self, key: &Key) -> Result<(), String> {
+        if self.http_clients.contains_key(key) {
+            return Ok(());
+        }
+        let _ = self.http_state();
+        let url = self.http.as_ref().unwrap().0.clone();
+        let salt = self.salt(&key.1);
+        let client_id = Uuid::from_slice(&salt).map_err(|e| format!("salt is not a client id: {e}"))?;
+        let srv = ServerConfig::Remote { url, client_id, encryption_secret: secret_bytes(&key.0) }
+            .into_server()
+            .await
+            .map_err(|e| format!("{e:#}"))?;
+        self.http_clients.insert(key.clone(), srv);
+        Ok(())
+    }
+
+    // ---- behaviours ----
+
+    async fn reset(&mut self, backend: &str, id: &Value) {
+        self.backend = backend.to_string();
+        self.vids.clear();
+        self.touched.clear();
+        self.nver = 0;
+        self.store = match backend {
+            "raw" => Store::Raw { blobs: HashMap::new() },
+            "cloud" => Store::Cloud { store: init_store(&fixed_salt("s1")) },
+            "http" => {
+                let st = self.http_state();
+                *st.lock().unwrap() = HttpState::default();
+                Store::Http
+            }
+            "git" => {
+                self.git_reset().await;
+                Store::Git
+            }
+            other => panic!("unknown backend {other}"),
+        };
+        self.out.push(json!({"a":"Reset","backend":backend,"id":id}));
+    }
+
+    /// a server of the current backend for a client holding `key`; for the object store and git
+    /// the salt is what the storage says it is
+    async fn with_server<T, F>(&mut self, key: &Key, f: F) -> Result<T, String>
+    where
+        F: for<'a> FnOnce(&'a mut Box<dyn Server>) -> std::pin::Pin<Box<dyn std::future::Future<Output = T> + 'a>>,
+    {
+        match &self.store {
+            Store::Cloud { store } => {
+                let store = store.clone();
+                let salt = self.salt(&key.1);
+                let old = store.lock().unwrap().objects.get("salt").cloned();
+                store.lock().unwrap().objects.insert("salt".into(), MemObject { value: salt, creation: 0 });
+                let srv = cloud_server(store.clone(), Box::new(PassGate), 0, 1000, &secret_bytes(&key.0));
+                let r = match srv {
+                    Ok(mut srv) => catch(f(&mut srv)).await,
+                    Err(e) => Err(format!("open: {e:#}")),
+                };
+                if let Some(o) = old {
+                    store.lock().unwrap().objects.insert("salt".into(), o);
+                }
+                r
+            }
+            Store::Http => {
+                self.http_open(key).await?;
+                let mut srv = self.http_clients.remove(key).unwrap();
+                let r = catch(f(&mut srv)).await;
+                self.http_clients.insert(key.clone(), srv);
+                r
+            }
+            Store::Git => {
+                self.git_set_salt(key);
+                let r = match self.git_open(key).await {
+                    Ok(()) => {
+                        let mut srv = self.git_handles.remove(key).unwrap();
+                        let r = catch(f(&mut srv)).await;
+                        self.git_handles.insert(key.clone(), srv);
+                        r
+                    }
+                    Err(e) => Err(format!("open: {e}")),
+                };
+                r
+            }
+            Store::Raw { .. } => Err("raw has no server".into()),
+        }
+    }
+
+    /// the sealed bytes the storage holds under a label
+    fn stored(&mut self, lab: &Lab) -> Option<Vec<u8>> {
+        let p = self.vid(&lab.1.clone());
+        let c = self.vid(&lab.2.clone());
+        match &self.store {
+            Store::Raw { blobs } => blobs.get(lab).cloned(),
+            Store::Cloud { store } => {
+                let name = if lab.0 == "v" { vname(p, c) } else { sname(c) };
+                store.lock().unwrap().objects.get(&name).map(|o| o.value.clone())
+            }
+            Store::Http => {
+                let st = self.http.as_ref().unwrap().1.lock().unwrap();
+                let r = if lab.0 == "v" {
+                    st.versions.iter().find(|v| v.0 == p && v.1 == c).map(|v| v.2.clone())
+                } else {
+                    st.snapshot.as_ref().filter(|s| s.0 == c).map(|s| s.1.clone())
+                };
+                drop(st);
+                r
+            }
+            Store::Git => {
+                let d = self.git_dir.as_ref().unwrap();
+                if lab.0 == "v" {
+                    std::fs::read(d.join(vname(p, c))).ok()
+                } else {
+                    let raw = std::fs::read(d.join("snapshot")).ok()?;
+                    let j: Value = serde_json::from_slice(&raw).ok()?;
+                    if Uuid::parse_str(j["version_id"].as_str()?).ok()? != c {
+                        return None;
+                    }
+                    b64dec(j["payload"].as_str()?)
+                }
+            }
+        }
+    }
+
+    /// store bytes under a label, shadowing what the storage held for the same kind and parent.
+    /// `commit`: for git, also stage and commit (not done inside sweeps)
+    fn plant(&mut self, lab: &Lab, bytes: &[u8], commit: bool) {
+        let p = self.vid(&lab.1.clone());
+        let c = self.vid(&lab.2.clone());
+        match &mut self.store {
+            Store::Raw { blobs } => {
+                blobs.insert(lab.clone(), bytes.to_vec());
+            }
+            Store::Cloud { store } => {
+                let mut s = store.lock().unwrap();
+                let prefix = if lab.0 == "v" { format!("v-{}-", p.as_simple()) } else { "s-".to_string() };
+                let names: Vec<String> = s.objects.keys().filter(|n| n.starts_with(&prefix)).cloned().collect();
+                for n in names {
+                    s.objects.remove(&n);
+                }
+                let name = if lab.0 == "v" { vname(p, c) } else { sname(c) };
+                s.objects.insert(name, MemObject { value: bytes.to_vec(), creation: 1 });
+            }
+            Store::Http => {
+                let mut st = self.http.as_ref().unwrap().1.lock().unwrap();
+                if lab.0 == "v" {
+                    st.versions.retain(|v| v.0 != p);
+                    st.versions.push((p, c, bytes.to_vec()));
+                } else {
+                    st.snapshot = Some((c, bytes.to_vec()));
+                }
+            }
+            Store::Git => {
+                let d = self.git_dir.clone().unwrap();
+                if lab.0 == "v" {
+                    let prefix = format!("v-{}-", p.as_simple());
+                    for e in std::fs::read_dir(&d).unwrap().flatten() {
+                        if e.file_name().to_string_lossy().starts_with(&prefix) {
+                            let _ = std::fs::remove_file(e.path());
+                        }
+                    }
+                    std::fs::write(d.join(vname(p, c)), bytes).unwrap();
+                } else {
+                    let j = json!({"version_id": c.as_simple().to_string(), "payload": b64enc(bytes)});
+                    std::fs::write(d.join("snapshot"), serde_json::to_vec(&j).unwrap()).unwrap();
+                }
+                if commit {
+                    self.git_dirty = true;
+                }
+            }
+        }
+    }
+
+    /// Server::get_child_version / get_snapshot / hook unseal for the value under the label
+    async fn read(&mut self, key: &Key, lab: &Lab) -> ReadOut {
+        let p = self.vid(&lab.1.clone());
+        let c = self.vid(&lab.2.clone());
+        if let Store::Raw { blobs } = &self.store {
+            let Some(blob) = blobs.get(lab).cloned() else { return ReadOut::NotFound };
+            let (secret, salt) = (secret_bytes(&key.0), self.salt(&key.1));
+            return match std::panic::catch_unwind(|| unseal(&secret, &salt, c, blob)) {
+                Ok(Ok(data)) => ReadOut::Returned { parent: None, vid: c, data },
+                Ok(Err(e)) => ReadOut::Error(format!("{e:#}")),
+                Err(_) => ReadOut::Panic("panic in unseal".into()),
+            };
+        }
+        if matches!(self.store, Store::Git) && !self.in_sweep {
+            // single planted values are committed before a client reads the repository
+            self.git_set_salt(key);
+            self.git_commit();
+        }
+        if let Store::Cloud { store } = &self.store {
+            if lab.0 == "v" {
+                // the storage decides which version is the latest one
+                store.lock().unwrap().objects.insert(
+                    "latest".into(),
+                    MemObject { value: c.as_simple().to_string().into_bytes(), creation: 1 },
+                );
+            }
+        }
+        let is_v = lab.0 == "v";
+        let r = self
+            .with_server(key, move |srv| {
+                Box::pin(async move {
+                    if is_v {
+                        match srv.get_child_version(p).await {
+                            Ok(GetVersionResult::Version { version_id, parent_version_id, history_segment }) => {
+                                ReadOut::Returned { parent: Some(parent_version_id), vid: version_id, data: history_segment }
+                            }
+                            Ok(GetVersionResult::NoSuchVersion) => ReadOut::NotFound,
+                            Err(e) => ReadOut::Error(format!("{e:#}")),
+                        }
+                    } else {
+                        match srv.get_snapshot().await {
+                            Ok(Some((v, data))) => ReadOut::Returned { parent: None, vid: v, data },
+                            Ok(None) => ReadOut::NotFound,
+                            Err(e) => ReadOut::Error(format!("{e:#}")),
+                        }
+                    }
+                })
+            })
+            .await;
+        match r {
+            Ok(o) => o,
+            Err(e) if e.starts_with("open: ") => ReadOut::Error(e),
+            Err(e) => ReadOut::Panic(e),
+        }
+    }
+
+    /// classify a read against the label it was made for
+    fn read_result(&mut self, lab: &Lab, o: &ReadOut) -> (String, String, String) {
+        let p = self.vid(&lab.1.clone());
+        let c = self.vid(&lab.2.clone());
+        match o {
+            ReadOut::Returned { parent, vid, data } => {
+                if *vid != c || (lab.0 == "v" && parent.is_some() && *parent != Some(p)) {
+                    ("mislabelled".into(), payload_token(data), String::new())
+                } else {
+                    ("returned".into(), payload_token(data), String::new())
+                }
+            }
+            ReadOut::NotFound => ("none".into(), "~".into(), String::new()),
+            ReadOut::Error(e) => ("error".into(), "~".into(), e.clone()),
+            ReadOut::Panic(e) => ("panic".into(), "~".into(), e.clone()),
+        }
+    }
+
+    /// decode stored bytes with the independent implementation into the symbolic term
+    fn term(&mut self, blob: &[u8], expect_pt: Option<&[u8]>) -> Value {
+        let fmt = if blob.is_empty() { "~".to_string() } else { blob[0].to_string() };
+        let nonce_hex = if blob.len() >= 13 { hex(&blob[1..13]) } else { String::new() };
+        let mut opened: Vec<(Key, String, Vec<u8>)> = vec![];
+        let mut vtoks: Vec<String> = self.vids.keys().cloned().collect();
+        vtoks.push("v0".into());
+        vtoks.sort();
+        for k in ["k1", "k2", "k0", "k3"] {
+            for s in ["s1", "s2", "s3"] {
+                let have = self.indep.keys.contains_key(&(secret_bytes(k), self.salt(s)));
+                // only keys that are in play (already derived) plus the honest one
+                if !have && !(k == "k1" && s == "s1") {
+                    continue;
+                }
+                for vt in &vtoks {
+                    let u = self.vid(vt);
+                    let (sec, sal) = (secret_bytes(k), self.salt(s));
+                    if let Some(pt) = self.indep.open(&sec, &sal, u, blob) {
+                        opened.push(((k.to_string(), s.to_string()), vt.clone(), pt));
+                    }
+                }
+            }
+        }
+        let ptlen_known = expect_pt.map(|p| p.len() as i64);
+        let mut t = json!({
+            "fmt": fmt, "nonce_hex": nonce_hex, "key": ["~","~"], "aad": ["~","~"], "pt": "~",
+            "intact": "bad", "clear": "no",
+        });
+        let mut diag = json!({"len": blob.len(), "fmt_byte": blob.first().copied().map(|b| b as i64).unwrap_or(-1),
+                              "opened_by": opened.len()});
+        if opened.len() == 1 {
+            let (k, vt, pt) = &opened[0];
+            t["key"] = key_json(k);
+            t["aad"] = json!(["task", vt]);
+            t["pt"] = json!(payload_token(pt));
+            t["intact"] = json!("ok");
+            diag["ptlen"] = json!(pt.len());
+            diag["nonce_len"] = json!(blob.len() as i64 - 17 - pt.len() as i64);
+            if pt.len() >= 8 && contains(blob, pt) {
+                t["clear"] = json!("yes");
+            }
+            if let Some(e) = expect_pt {
+                diag["roundtrip"] = json!(e == &pt[..]);
+            }
+        } else if let Some(n) = ptlen_known {
+            diag["ptlen"] = json!(n);
+            diag["nonce_len"] = json!(blob.len() as i64 - 17 - n);
+        }
+        if contains(blob, MARKER.as_bytes()) {
+            t["clear"] = json!("yes");
+        }
+        if let Some(e) = expect_pt {
+            if e.len() >= 8 && contains(blob, e) {
+                t["clear"] = json!("yes");
+            }
+        }
+        json!({"term": t, "diag": diag})
+    }
+
+    fn log_put(&mut self, a: &str, key: &Key, lab: &Lab, pt_tok: &str, extra: Value) {
+        let pt = payload_bytes(pt_tok);
+        let blob = self.stored(lab);
+        {
+            let (sec, sal) = (secret_bytes(&key.0), self.salt(&key.1));
+            let _ = self.indep.key(&sec, &sal);
+        }
+        let mut ev = json!({"a": a, "key": key_json(key), "lab": lab_json(lab), "pt": pt_tok});
+        match blob {
+            Some(b) => {
+                let td = self.term(&b, Some(&pt));
+                ev["term"] = td["term"].clone();
+                ev["diag"] = td["diag"].clone();
+                if b.len() <= 200 && self.dump.len() < 64 {
+                    let (k, s) = (secret_bytes(&key.0), self.salt(&key.1));
+                    let (pu, cu) = (self.vid(&lab.1.clone()), self.vid(&lab.2.clone()));
+                    let be = self.backend.clone();
+                    self.dump.push(json!({"backend": be, "secret": hex(&k), "salt": hex(&s),
+                        "lab": lab_json(lab), "vids": {"parent": hex(pu.as_bytes()),
+                        "own": hex(cu.as_bytes())},
+                        "bound": td["term"]["aad"][1], "blob": hex(&b), "pt": hex(&pt)}));
+                }
+            }
+            None => {
+                ev["term"] = json!({"fmt":"~","nonce_hex":"","key":["~","~"],"aad":["~","~"],"pt":"~","intact":"missing","clear":"no"});
+                ev["diag"] = json!({"len":-1,"fmt_byte":-1,"opened_by":0,"ptlen":-1,"nonce_len":-1,"roundtrip":false});
+            }
+        }
+        if let Some(o) = extra.as_object() {
+            for (k, v) in o {
+                ev[k] = v.clone();
+            }
+        }
+        self.out.push(ev);
+    }
+
+    async fn step(&mut self, s: &Value) {
+        let a = s["a"].as_str().unwrap();
+        match a {
+            "Backend" => {}
+            "AddVersion" => {
+                let key = key_of(&s["key"]);
+                let pt_tok = s["pt"].as_str().unwrap().to_string();
+                let pt = payload_bytes(&pt_tok);
+                let ptok = format!("v{}", self.nver);
+                let ctok = format!("v{}", self.nver + 1);
+                let parent = self.vid(&ptok);
+                let r = self
+                    .with_server(&key, move |srv| Box::pin(async move { srv.add_version(parent, pt).await }))
+                    .await;
+                match r {
+                    Ok(Ok((AddVersionResult::Ok(v), _))) => {
+                        self.vids.insert(ctok.clone(), v);
+                        self.nver += 1;
+                        let lab = ("v".to_string(), ptok, ctok);
+                        self.log_put("AddVersion", &key, &lab, &pt_tok, json!({}));
+                    }
+                    Ok(Ok((AddVersionResult::ExpectedParentVersion(v), _))) => {
+                        self.out.push(json!({"a":"Failed","what":"AddVersion","msg":format!("expected parent {v}")}))
+                    }
+                    Ok(Err(e)) => self.out.push(json!({"a":"Failed","what":"AddVersion","msg":format!("{e:#}")})),
+                    Err(e) => self.out.push(json!({"a":"Failed","what":"AddVersion","msg":format!("panic: {e}")})),
+                }
+            }
+            "AddSnapshot" => {
+                let key = key_of(&s["key"]);
+                let lab = lab_of(&s["lab"]);
+                let pt_tok = s["pt"].as_str().unwrap().to_string();
+                let pt = payload_bytes(&pt_tok);
+                let v = self.vid(&lab.2.clone());
+                let r = self
+                    .with_server(&key, move |srv| Box::pin(async move { srv.add_snapshot(v, pt).await }))
+                    .await;
+                match r {
+                    Ok(Ok(())) => self.log_put("AddSnapshot", &key, &lab, &pt_tok, json!({})),
+                    Ok(Err(e)) => self.out.push(json!({"a":"Failed","what":"AddSnapshot","msg":format!("{e:#}")})),
+                    Err(e) => self.out.push(json!({"a":"Failed","what":"AddSnapshot","msg":format!("panic: {e}")})),
+                }
+            }
+            "SealRaw" => {
+                let key = key_of(&s["key"]);
+                let lab = lab_of(&s["lab"]);
+                let pt_tok = s["pt"].as_str().unwrap().to_string();
+                let pt = payload_bytes(&pt_tok);
+                let v = self.vid(&lab.2.clone());
+                let sealer = s["sealer"].as_str().unwrap_or("hook").to_string();
+                let (secret, salt) = (secret_bytes(&key.0), self.salt(&key.1));
+                let blob = if sealer == "indep" {
+                    Ok(self.indep.seal(&secret, &salt, v, &pt))
+                } else {
+                    match std::panic::catch_unwind(|| seal(&secret, &salt, v, pt.clone())) {
+                        Ok(Ok(b)) => Ok(b),
+                        Ok(Err(e)) => Err(format!("{e:#}")),
+                        Err(_) => Err("panic in seal".into()),
+                    }
+                };
+                match blob {
+                    Ok(b) => {
+                        // make sure the independent decoder knows this key
+                        let _ = self.indep.key(&secret, &salt);
+                        self.plant(&lab, &b, true);
+                        self.log_put("SealRaw", &key, &lab, &pt_tok, json!({"sealer": sealer}));
+                    }
+                    Err(e) => self.out.push(json!({"a":"Failed","what":"SealRaw","msg":e})),
+                }
+            }
+            "Mutate" => {
+                let lab = lab_of(&s["lab"]);
+                let m = s["m"].as_str().unwrap().to_string();
+                let Some(mut b) = self.stored(&lab) else {
+                    self.out.push(json!({"a":"Failed","what":"Mutate","msg":"nothing stored under the label"}));
+                    return;
+                };
+                let how;
+                match m.as_str() {
+                    "flip" => {
+                        let free: Vec<usize> = (0..b.len()).filter(|i| !self.touched.contains(i)).collect();
+                        if free.is_empty() {
+                            b.push(0x55); // nothing (left) to flip: garbage appended instead
+                            how = "grow".into();
+                        } else {
+                            let pos = s["pos"].as_u64().map(|x| x as usize).unwrap_or_else(|| free[self.rnd(free.len())]);
+                            let mask = s["mask"].as_u64().map(|x| x as u8).unwrap_or(if self.rnd(2) == 0 { 0x01 } else { 0x80 });
+                            b[pos] ^= mask;
+                            self.touched.insert(pos);
+                            how = format!("byte {pos} xor {mask:#04x}");
+                        }
+                    }
+                    "cut" => {
+                        let n = s["len"].as_u64().map(|x| x as usize).unwrap_or_else(|| self.rnd(b.len().max(1)));
+                        b.truncate(n);
+                        how = format!("truncated to {n}");
+                    }
+                    "fmt" => {
+                        if b.is_empty() {
+                            b.push(2);
+                        } else {
+                            let choices = [0u8, 2, 255, 0x31];
+                            b[0] = choices[self.rnd(choices.len())];
+                        }
+                        self.touched.insert(0);
+                        how = format!("format byte {}", b[0]);
+                    }
+                    other => panic!("unknown mutation {other}"),
+                }
+                self.plant(&lab, &b, true);
+                self.out.push(json!({"a":"Mutate","m":m,"lab":lab_json(&lab),"how":how}));
+            }
+            "Relabel" => {
+                let from = lab_of(&s["from"]);
+                let to = lab_of(&s["lab"]);
+                let Some(b) = self.stored(&from) else {
+                    self.out.push(json!({"a":"Failed","what":"Relabel","msg":"nothing stored under the label"}));
+                    return;
+                };
+                self.plant(&to, &b, true);
+                self.out.push(json!({"a":"Relabel","from":lab_json(&from),"lab":lab_json(&to)}));
+            }
+            "Foreign" => {
+                let lab = lab_of(&s["lab"]);
+                let key = key_of(&s["key"]);
+                let pt_tok = s["pt"].as_str().unwrap().to_string();
+                let v = self.doc_bind(&lab);
+                let (secret, salt) = (secret_bytes(&key.0), self.salt(&key.1));
+                let b = self.indep.seal(&secret, &salt, v, &payload_bytes(&pt_tok));
+                self.plant(&lab, &b, true);
+                self.log_put("Foreign", &key, &lab, &pt_tok, json!({"sealer":"indep"}));
+            }
+            "Read" => {
+                let key = key_of(&s["key"]);
+                let lab = lab_of(&s["lab"]);
+                let o = self.read(&key, &lab).await;
+                let (res, pt, msg) = self.read_result(&lab, &o);
+                self.out.push(json!({"a":"Read","key":key_json(&key),"lab":lab_json(&lab),"res":res,"pt":pt,"msg":msg}));
+            }
+            "Sweep" => self.sweep(s).await,
+            "RelabelSweep" => self.relabel_sweep(s).await,
+            "Scan" => self.scan(),
+            other => panic!("unknown step {other}"),
+        }
+    }
+
+    /// every single-byte flip (one mask) or every truncation length of the value under a label,
+    /// each offered to a reader; the original value is put back afterwards
+    async fn sweep(&mut self, s: &Value) {
+        let key = key_of(&s["key"]);
+        let lab = lab_of(&s["lab"]);
+        let variant = s["variant"].as_str().unwrap().to_string(); // flip01 | flip80 | cut
+        let stride = s["stride"].as_u64().unwrap_or(1).max(1) as usize;
+        let edge = s["edge"].as_u64().unwrap_or(64) as usize;
+        let Some(orig) = self.stored(&lab) else {
+            self.out.push(json!({"a":"Failed","what":"Sweep","msg":"nothing stored under the label"}));
+            return;
+        };
+        let n = orig.len();
+        // positions: all, or (with a stride) the first and last `edge` positions and every
+        // stride-th one in between
+        let positions: Vec<usize> = (0..n).filter(|i| stride == 1 || *i < edge || *i + edge >= n || i % stride == 0).collect();
+        let mutate = |i: usize| -> Vec<u8> {
+            let mut b = orig.clone();
+            match variant.as_str() {
+                "flip01" => b[i] ^= 0x01,
+                "flip80" => b[i] ^= 0x80,
+                "cut" => b.truncate(i),
+                other => panic!("unknown sweep {other}"),
+            }
+            b
+        };
+        let (mut errors, mut returned, mut panics, mut others) = (0usize, 0usize, 0usize, 0usize);
+        let mut first_bad: i64 = -1;
+        if let Store::Raw { .. } = &self.store {
+            // the hook derives the key on every call: spread the calls over threads
+            let (secret, salt) = (secret_bytes(&key.0), self.salt(&key.1));
+            let c = self.vid(&lab.2.clone());
+            let results: Mutex<Vec<(usize, u8)>> = Mutex::new(vec![]);
+            let next = std::sync::atomic::AtomicUsize::new(0);
+            std::thread::scope(|sc| {
+                for _ in 0..self.threads {
+                    sc.spawn(|| loop {
+                        let k = next.fetch_add(1, std::sync::atomic::Ordering::SeqCst);
+                        if k >= positions.len() {
+                            break;
+                        }
+                        let i = positions[k];
+                        let b = mutate(i);
+                        let r = match std::panic::catch_unwind(|| unseal(&secret, &salt, c, b)) {
+                            Ok(Ok(_)) => 1u8,
+                            Ok(Err(_)) => 0u8,
+                            Err(_) => 2u8,
+                        };
+                        results.lock().unwrap().push((i, r));
+                    });
+                }
+            });
+            let mut rs = results.into_inner().unwrap();
+            rs.sort();
+            for (i, r) in rs {
+                match r {
+                    0 => errors += 1,
+                    1 => returned += 1,
+                    _ => panics += 1,
+                }
+                if r != 0 && first_bad < 0 {
+                    first_bad = i as i64;
+                }
+            }
+        } else {
+            self.in_sweep = true;
+            for &i in &positions {
+                let b = mutate(i);
+                self.plant(&lab, &b, false);
+                let o = self.read(&key, &lab).await;
+                match o {
+                    ReadOut::Error(_) => errors += 1,
+                    ReadOut::Returned { .. } => returned += 1,
+                    ReadOut::Panic(_) => panics += 1,
+                    ReadOut::NotFound => others += 1,
+                }
+                if !matches!(o, ReadOut::Error(_)) && first_bad < 0 {
+                    first_bad = i as i64;
+                }
+            }
+            self.plant(&lab, &orig, false);
+            self.in_sweep = false;
+        }
+        let m = if variant == "cut" { "cut" } else { "flip" };
+        self.out.push(json!({"a":"Sweep","m":m,"variant":variant,"key":key_json(&key),"lab":lab_json(&lab),
+            "len":n,"n":positions.len(),"errors":errors,"returned":returned,"panics":panics,"others":others,
+            "first_bad":first_bad}));
+    }
+
+    /// everything the harness can change in the storage, to put it back after a sweep
+    fn save_store(&self) -> Value {
+        match &self.store {
+            Store::Raw { blobs } => json!(blobs.iter().map(|(l, b)| json!([lab_json(l), hex(b)])).collect::<Vec<_>>()),
+            Store::Cloud { store } => {
+                let s = store.lock().unwrap();
+                json!(s.objects.iter().map(|(n, o)| json!([n, hex(&o.value), o.creation])).collect::<Vec<_>>())
+            }
+            Store::Http => {
+                let st = self.http.as_ref().unwrap().1.lock().unwrap();
+                json!({"versions": st.versions.iter().map(|v| json!([v.0.to_string(), v.1.to_string(), hex(&v.2)])).collect::<Vec<_>>(),
+                       "snapshot": st.snapshot.as_ref().map(|s| json!([s.0.to_string(), hex(&s.1)]))})
+            }
+            Store::Git => {
+                let d = self.git_dir.as_ref().unwrap();
+                let mut files = vec![];
+                for e in std::fs::read_dir(d).unwrap().flatten() {
+                    if e.path().is_file() {
+                        files.push(json!([e.file_name().to_string_lossy(), hex(&std::fs::read(e.path()).unwrap())]));
+                    }
+                }
+                json!(files)
+            }
+        }
+    }
+
+    fn restore_store(&mut self, saved: &Value) {
+        fn unhex(v: &Value) -> Vec<u8> {
+            let s = v.as_str().unwrap().as_bytes();
+            s.chunks(2).map(|c| u8::from_str_radix(std::str::from_utf8(c).unwrap(), 16).unwrap()).collect()
+        }
+        match &mut self.store {
+            Store::Raw { blobs } => {
+                blobs.clear();
+                for e in saved.as_array().unwrap() {
+                    blobs.insert(lab_of(&e[0]), unhex(&e[1]));
+                }
+            }
+            Store::Cloud { store } => {
+                let mut s = store.lock().unwrap();
+                s.objects.clear();
+                for e in saved.as_array().unwrap() {
+                    s.objects.insert(e[0].as_str().unwrap().to_string(),
+                        MemObject { value: unhex(&e[1]), creation: e[2].as_u64().unwrap() });
+                }
+            }
+            Store::Http => {
+                let mut st = self.http.as_ref().unwrap().1.lock().unwrap();
+                st.versions = saved["versions"].as_array().unwrap().iter()
+                    .map(|v| (Uuid::parse_str(v[0].as_str().unwrap()).unwrap(), Uuid::parse_str(v[1].as_str().unwrap()).unwrap(), unhex(&v[2])))
+                    .collect();
+                st.snapshot = saved["snapshot"].as_array().map(|s| (Uuid::parse_str(s[0].as_str().unwrap()).unwrap(), unhex(&s[1])));
+            }
+            Store::Git => {
+                let d = self.git_dir.clone().unwrap();
+                for e in std::fs::read_dir(&d).unwrap().flatten() {
+                    if e.path().is_file() {
+                        let _ = std::fs::remove_file(e.path());
+                    }
+                }
+                for e in saved.as_array().unwrap() {
+                    std::fs::write(d.join(e[0].as_str().unwrap()), unhex(&e[1])).unwrap();
+                }
+            }
+        }
+    }
+
+    /// the value under `from` offered under EVERY other label over the given version ids, each
+    /// time to a reader holding `key`; the storage is put back afterwards
+    async fn relabel_sweep(&mut self, s: &Value) {
+        let key = key_of(&s["key"]);
+        let from = lab_of(&s["from"]);
+        let vids: Vec<String> = s["vids"].as_array().unwrap().iter().map(|v| v.as_str().unwrap().to_string()).collect();
+        let Some(blob) = self.stored(&from) else {
+            self.out.push(json!({"a":"Failed","what":"RelabelSweep","msg":"nothing stored under the label"}));
+            return;
+        };
+        let mut targets: Vec<Lab> = vec![];
+        if from.0 == "r" {
+            for c in &vids {
+                targets.push(("r".into(), "~".into(), c.clone()));
+            }
+        } else {
+            for p in &vids {
+                for c in &vids {
+                    if p != c {
+                        targets.push(("v".into(), p.clone(), c.clone()));
+                    }
+                }
+            }
+            for c in &vids {
+                targets.push(("s".into(), "~".into(), c.clone()));
+            }
+        }
+        targets.retain(|t| *t != from);
+        if matches!(self.store, Store::Git) {
+            self.git_set_salt(&key);
+            self.git_commit();
+        }
+        let saved = self.save_store();
+        self.in_sweep = true;
+        let mut results = vec![];
+        for to in &targets {
+            self.plant(to, &blob, false);
+            let o = self.read(&key, to).await;
+            let (res, pt, _) = self.read_result(to, &o);
+            results.push(json!([lab_json(to), res, pt]));
+            self.restore_store(&saved);
+        }
+        self.in_sweep = false;
+        self.out.push(json!({"a":"RelabelSweep","from":lab_json(&from),"key":key_json(&key),"results":results}));
+    }
+
+    /// everything the storage holds (names and values; for HTTP every request received; for git
+    /// every file of the working tree and every object of the repository) must be free of the
+    /// plaintext marker
+    fn scan(&mut self) {
+        let mut items: Vec<(String, Vec<u8>)> = vec![];
+        match &self.store {
+            Store::Raw { blobs } => {
+                for (l, b) in blobs {
+                    items.push((format!("{l:?}"), b.clone()));
+                }
+            }
+            Store::Cloud { store } => {
+                for (n, o) in store.lock().unwrap().objects.iter() {
+                    items.push((n.clone(), o.value.clone()));
+                }
+            }
+            Store::Http => {
+                let st = self.http.as_ref().unwrap().1.lock().unwrap();
+                for (head, body) in &st.requests {
+                    items.push((head.clone(), body.clone()));
+                }
+            }
+            Store::Git => {
+                let d = self.git_dir.clone().unwrap();
+                let mut stack = vec![d.clone()];
+                while let Some(p) = stack.pop() {
+                    for e in std::fs::read_dir(&p).unwrap().flatten() {
+                        let path = e.path();
+                        if path.is_dir() {
+                            stack.push(path);
+                            continue;
+                        }
+                        let Ok(raw) = std::fs::read(&path) else { continue };
+                        let name = path.strip_prefix(&d).unwrap().to_string_lossy().to_string();
+                        // loose objects are zlib streams: look inside
+                        if name.starts_with(".git/objects/") && !name.contains("pack") {
+                            let mut z = flate2::read::ZlibDecoder::new(&raw[..]);
+                            let mut plain = vec![];
+                            if z.read_to_end(&mut plain).is_ok() {
+                                items.push((format!("{name} (inflated)"), plain));
+                            }
+                        }
+                        // the snapshot file wraps the sealed value in JSON / base64
+                        if name == "snapshot" {
+                            if let Ok(j) = serde_json::from_slice::<Value>(&raw) {
+                                if let Some(b) = j["payload"].as_str().and_then(b64dec) {
+                                    items.push(("snapshot (payload decoded)".into(), b));
+                                }
+                            }
+                        }
+                        items.push((name, raw));
+                    }
+                }
+            }
+        }
+        let marker = MARKER.as_bytes();
+        let marker_b64 = b64enc(marker);
+        let mut hits: Vec<String> = vec![];
+        let mut bytes = 0usize;
+        for (n, b) in &items {
+            bytes += b.len();
+            if contains(n.as_bytes(), marker) || contains(b, marker) || contains(b, marker_b64.as_bytes()) {
+                hits.push(n.clone());
+            }
+            for t in ["p2", "p100", "p70k"] {
+                let p = payload_bytes(t);
+                if contains(b, &p[..p.len().min(64)]) {
+                    hits.push(format!("{n} contains the start of {t}"));
+                }
+            }
+        }
+        self.out.push(json!({"a":"Scan","items":items.len(),"bytes":bytes,"hits":hits.len(),
+            "where": hits.iter().take(5).cloned().collect::<Vec<_>>()}));
+    }
+
+    /// replace nonce_hex by the index of the nonce in the order of first appearance
+    fn finish(&mut self, out: &str) {
+        let mut seen: HashMap<String, usize> = HashMap::new();
+        let mut o = std::io::BufWriter::new(std::fs::File::create(out).unwrap());
+        for ev in self.out.iter_mut() {
+            if let Some(t) = ev.get_mut("term") {
+                let h = t["nonce_hex"].as_str().unwrap_or("").to_string();
+                let idx = if h.is_empty() {
+                    0
+                } else {
+                    let n = seen.len() + 1;
+                    *seen.entry(h).or_insert(n)
+                };
+                t.as_object_mut().unwrap().remove("nonce_hex");
+                t["nonce"] = json!(idx);
+            }
+            writeln!(o, "{}", serde_json::to_string(ev).unwrap()).unwrap();
+        }
+        eprintln!("sealdrv: {} events, {} distinct nonces", self.out.len(), seen.len());
+    }
+}
+
+async fn run_behaviour(ctx: &mut Ctx, backend: &str, id: Value, steps: &[Value]) {
+    ctx.reset(backend, &id).await;
+    for s in steps {
+        ctx.step(s).await;
+    }
+}
+
+// ------------------------------------------------------------------------------------------
+// built-in scenarios
+
+fn k(a: &str, b: &str) -> Value {
+    json!([a, b])
+}
+fn l(kind: &str, p: &str, c: &str) -> Value {
+    json!([kind, p, c])
+}
+
+/// raw hook: payload classes x keys x version ids, both directions, wrong key / id, sweeps
+fn vector_behaviours(thorough: bool) -> Vec<Vec<Value>> {
+    let mut bs = vec![];
+    let keys: Vec<(&str, &str)> = if thorough {
+        vec![("k1", "s1"), ("k2", "s1"), ("k1", "s2"), ("k0", "s1"), ("k3", "s3")]
+    } else {
+        vec![("k1", "s1"), ("k2", "s1"), ("k0", "s3")]
+    };
+    for (ki, (sec, sal)) in keys.iter().enumerate() {
+        let pts: Vec<&str> = if ki == 0 || thorough { vec!["p0", "p1", "p100", "p70k"] } else { vec!["p100"] };
+        let (osec, osal) = if ki == 0 { ("k2", "s1") } else { ("k1", "s1") };
+        for pt in pts {
+            let mut b = vec![];
+            // hook seals for v1 and for the nil id; the independent implementation seals for v2
+            b.push(json!({"a":"SealRaw","key":k(sec,sal),"lab":l("r","~","v1"),"pt":pt,"sealer":"hook"}));
+            b.push(json!({"a":"SealRaw","key":k(sec,sal),"lab":l("r","~","v0"),"pt":pt,"sealer":"hook"}));
+            b.push(json!({"a":"SealRaw","key":k(sec,sal),"lab":l("r","~","v2"),"pt":pt,"sealer":"indep"}));
+            b.push(json!({"a":"Scan"}));
+            if ki == 0 && pt == "p100" {
+                // the same call twice must not produce the same nonce; one value under every id
+                b.push(json!({"a":"SealRaw","key":k(sec,sal),"lab":l("r","~","v0"),"pt":pt,"sealer":"hook"}));
+                b.push(json!({"a":"RelabelSweep","from":l("r","~","v1"),"key":k(sec,sal),"vids":["v0","v1","v2","v3","v4"]}));
+            }
+            for v in ["v1", "v0", "v2"] {
+                b.push(json!({"a":"Read","key":k(sec,sal),"lab":l("r","~",v)}));
+            }
+            // wrong secret / salt
+            b.push(json!({"a":"Read","key":k(osec,osal),"lab":l("r","~","v1")}));
+            if ki == 0 {
+                b.push(json!({"a":"Read","key":k("k1","s2"),"lab":l("r","~","v2")}));
+            }
+            // a value sealed for another version id (incl. the nil id)
+            b.push(json!({"a":"Relabel","from":l("r","~","v1"),"lab":l("r","~","v3")}));
+            b.push(json!({"a":"Read","key":k(sec,sal),"lab":l("r","~","v3")}));
+            b.push(json!({"a":"Relabel","from":l("r","~","v0"),"lab":l("r","~","v1")}));
+            b.push(json!({"a":"Read","key":k(sec,sal),"lab":l("r","~","v1")}));
+            b.push(json!({"a":"Relabel","from":l("r","~","v2"),"lab":l("r","~","v0")}));
+            b.push(json!({"a":"Read","key":k(sec,sal),"lab":l("r","~","v0")}));
+            // empty value, other format bytes
+            b.push(json!({"a":"Mutate","m":"cut","lab":l("r","~","v3"),"len":0}));
+            b.push(json!({"a":"Read","key":k(sec,sal),"lab":l("r","~","v3")}));
+            b.push(json!({"a":"Mutate","m":"fmt","lab":l("r","~","v2")}));
+            b.push(json!({"a":"Read","key":k(sec,sal),"lab":l("r","~","v2")}));
+            bs.push(b);
+        }
+    }
+    // the tamper sweep through the hook: every flip (both masks) and every truncation
+    let sweep_pts: Vec<&str> = if thorough { vec!["p0", "p1", "p100"] } else { vec!["p0", "p1"] };
+    for pt in sweep_pts {
+        let mut b = vec![];
+        b.push(json!({"a":"SealRaw","key":k("k1","s1"),"lab":l("r","~","v1"),"pt":pt,"sealer":"hook"}));
+        b.push(json!({"a":"Read","key":k("k1","s1"),"lab":l("r","~","v1")}));
+        for variant in ["flip01", "flip80", "cut"] {
+            b.push(json!({"a":"Sweep","variant":variant,"key":k("k1","s1"),"lab":l("r","~","v1")}));
+        }
+        b.push(json!({"a":"Read","key":k("k1","s1"),"lab":l("r","~","v1")}));
+        bs.push(b);
+    }
+    if !thorough {
+        // p100 through the hook: a sample (all of it is swept through the object store)
+        let mut b = vec![];
+        b.push(json!({"a":"SealRaw","key":k("k1","s1"),"lab":l("r","~","v1"),"pt":"p100","sealer":"hook"}));
+        for variant in ["flip01", "flip80", "cut"] {
+            b.push(json!({"a":"Sweep","variant":variant,"key":k("k1","s1"),"lab":l("r","~","v1"),"stride":16,"edge":16}));
+        }
+        bs.push(b);
+    } else {
+        let mut b = vec![];
+        b.push(json!({"a":"SealRaw","key":k("k1","s1"),"lab":l("r","~","v1"),"pt":"p70k","sealer":"hook"}));
+        for variant in ["flip01", "flip80", "cut"] {
+            b.push(json!({"a":"Sweep","variant":variant,"key":k("k1","s1"),"lab":l("r","~","v1"),"stride":997,"edge":40}));
+        }
+        bs.push(b);
+    }
+    bs
+}
+
+/// the three real backends: what is stored, what a changed store makes the Server return
+fn backend_behaviours(backend: &str, thorough: bool) -> Vec<Vec<Value>> {
+    let k1 = k("k1", "s1");
+    let mut bs = vec![];
+    // 1. content and binding, wrong secret / salt, re-labelling, foreign values, single mutations
+    let mut b = vec![];
+    b.push(json!({"a":"AddVersion","key":k1,"pt":"p100"}));
+    b.push(json!({"a":"AddVersion","key":k1,"pt":"p70k"}));
+    b.push(json!({"a":"AddVersion","key":k1,"pt":"p0"}));
+    b.push(json!({"a":"AddVersion","key":k("k2","s1"),"pt":"p2"}));
+    b.push(json!({"a":"AddSnapshot","key":k1,"lab":l("s","~","v2"),"pt":"p70k"}));
+    b.push(json!({"a":"Scan"}));
+    let vlabs = [l("v", "v0", "v1"), l("v", "v1", "v2"), l("v", "v2", "v3"), l("v", "v3", "v4")];
+    for (i, lab) in vlabs.iter().enumerate() {
+        let right = if i == 3 { k("k2", "s1") } else { k1.clone() };
+        let wrong = if i == 3 { k1.clone() } else { k("k2", "s1") };
+        b.push(json!({"a":"Read","key":right,"lab":lab}));
+        b.push(json!({"a":"Read","key":wrong,"lab":lab}));
+    }
+    b.push(json!({"a":"Read","key":k("k1","s2"),"lab":l("v","v0","v1")}));
+    b.push(json!({"a":"Read","key":k1,"lab":l("s","~","v2")}));
+    b.push(json!({"a":"Read","key":k("k2","s1"),"lab":l("s","~","v2")}));
+    b.push(json!({"a":"Read","key":k("k1","s2"),"lab":l("s","~","v2")}));
+    // the value of every stored version / snapshot offered under EVERY other label
+    let ids = json!(["v0", "v1", "v2", "v3", "v4", "v5"]);
+    for (from, key) in [(l("v", "v0", "v1"), k1.clone()), (l("v", "v2", "v3"), k1.clone()),
+                        (l("v", "v3", "v4"), k("k2", "s1")), (l("s", "~", "v2"), k1.clone())] {
+        b.push(json!({"a":"RelabelSweep","from":from,"key":key,"vids":ids}));
+    }
+    // re-labelling: a version under another parent / another id / as a snapshot, a snapshot as a
+    // version, a snapshot under another id
+    let relabels = [
+        (l("v", "v0", "v1"), l("v", "v1", "v2")), // overwrite the value of another version
+        (l("v", "v1", "v2"), l("v", "v4", "v5")), // new name, both ids different
+        (l("v", "v2", "v3"), l("v", "v5", "v3")), // same id under another parent
+        (l("v", "v0", "v1"), l("v", "v0", "v6")), // same parent, another id
+        (l("s", "~", "v2"), l("s", "~", "v1")),   // the snapshot as the snapshot of another version
+        (l("v", "v3", "v4"), l("s", "~", "v4")),  // a version as the snapshot of the same id
+        (l("v", "v3", "v4"), l("s", "~", "v3")),  // a version as the snapshot of its parent
+        (l("s", "~", "v3"), l("v", "v6", "v3")),  // (that value) back as a version of the same id
+    ];
+    for (from, to) in relabels.iter() {
+        b.push(json!({"a":"Relabel","from":from,"lab":to}));
+        b.push(json!({"a":"Read","key":k1,"lab":to}));
+        b.push(json!({"a":"Read","key":k("k2","s1"),"lab":to}));
+    }
+    bs.push(b);
+
+    let mut b = vec![];
+    b.push(json!({"a":"AddVersion","key":k1,"pt":"p100"}));
+    b.push(json!({"a":"AddVersion","key":k1,"pt":"p1"}));
+    b.push(json!({"a":"AddSnapshot","key":k1,"lab":l("s","~","v1"),"pt":"p100"}));
+    for lab in [l("v", "v0", "v1"), l("s", "~", "v1")] {
+        // a value sealed by another implementation with the same key is accepted, with another
+        // secret or salt it is refused (and accepted by the holder of that key)
+        b.push(json!({"a":"Foreign","lab":lab,"key":k1,"pt":"p2"}));
+        b.push(json!({"a":"Read","key":k1,"lab":lab}));
+        b.push(json!({"a":"Foreign","lab":lab,"key":k("k2","s1"),"pt":"p2"}));
+        b.push(json!({"a":"Read","key":k1,"lab":lab}));
+        b.push(json!({"a":"Read","key":k("k2","s1"),"lab":lab}));
+        b.push(json!({"a":"Foreign","lab":lab,"key":k("k1","s2"),"pt":"p2"}));
+        b.push(json!({"a":"Read","key":k1,"lab":lab}));
+        b.push(json!({"a":"Read","key":k("k1","s2"),"lab":lab}));
+        b.push(json!({"a":"Foreign","lab":lab,"key":k1,"pt":"p100"}));
+        for m in ["fmt", "flip", "cut"] {
+            b.push(json!({"a":"Read","key":k1,"lab":lab}));
+            b.push(json!({"a":"Mutate","m":m,"lab":lab}));
+            b.push(json!({"a":"Read","key":k1,"lab":lab}));
+            b.push(json!({"a":"Foreign","lab":lab,"key":k1,"pt":"p100"}));
+        }
+        b.push(json!({"a":"Mutate","m":"cut","lab":lab,"len":0}));
+        b.push(json!({"a":"Read","key":k1,"lab":lab}));
+    }
+    bs.push(b);
+
+    // 2. the tamper sweep through the backend's own read path
+    let mut sizes = vec![("p0", 1u64), ("p1", 1), ("p100", 1)];
+    if thorough {
+        sizes.push(("p70k", if backend == "cloud" { 1 } else { 101 }));
+    } else if backend == "cloud" {
+        sizes.push(("p70k", 499));
+    }
+    for (pt, stride) in sizes {
+        let mut b = vec![];
+        b.push(json!({"a":"AddVersion","key":k1,"pt":pt}));
+        b.push(json!({"a":"AddSnapshot","key":k1,"lab":l("s","~","v1"),"pt":pt}));
+        for lab in [l("v", "v0", "v1"), l("s", "~", "v1")] {
+            if pt == "p70k" && lab[0] == "s" && !thorough {
+                continue;
+            }
+            b.push(json!({"a":"Read","key":k1,"lab":lab}));
+            for variant in ["flip01", "flip80", "cut"] {
+                b.push(json!({"a":"Sweep","variant":variant,"key":k1,"lab":lab,"stride":stride,"edge":48}));
+            }
+            b.push(json!({"a":"Read","key":k1,"lab":lab}));
+        }
+        bs.push(b);
+    }
+    bs
+}
+
+pub fn main(args: &[String]) {
+    for v in ["HTTP_PROXY", "HTTPS_PROXY", "http_proxy", "https_proxy", "ALL_PROXY", "all_proxy"] {
+        std::env::remove_var(v);
+    }
+    std::env::set_var("NO_PROXY", "127.0.0.1,localhost");
+    std::env::set_var("GIT_CONFIG_GLOBAL", "/dev/null");
+    std::env::set_var("GIT_CONFIG_SYSTEM", "/dev/null");
+    let cmd = args[1].as_str();
+    let out = crate::arg(args, "--out").expect("--out");
+    let dir = PathBuf::from(crate::arg(args, "--dir").unwrap_or_else(|| format!("{out}.dir")));
+    let _ = std::fs::remove_dir_all(&dir);
+    std::fs::create_dir_all(&dir).unwrap();
+    // the scratch directory may lie inside a git work tree (/verif): keep git from looking above
+    let abs = std::fs::canonicalize(&dir).unwrap();
+    std::env::set_var("GIT_CEILING_DIRECTORIES", abs.to_string_lossy().to_string());
+    let thorough = args.iter().any(|a| a == "--thorough");
+    let seed: u64 = crate::arg(args, "--seed").and_then(|s| s.parse().ok()).unwrap_or(1);
+    let mut ctx = Ctx::new(abs.clone(), seed);
+    if let Some(t) = crate::arg(args, "--threads").and_then(|s| s.parse().ok()) {
+        ctx.threads = t;
+    }
+    // the panic hook would print every caught panic; keep the output small
+    std::panic::set_hook(Box::new(|_| {}));
+    crate::local_block_on(async {
+        match cmd {
+            "seal-replay" => {
+                let inp = crate::arg(args, "--in").expect("--in");
+                let f = BufReader::new(std::fs::File::open(inp).unwrap());
+                for line in f.lines() {
+                    let line = line.unwrap();
+                    if line.trim().is_empty() {
+                        continue;
+                    }
+                    let b: Value = serde_json::from_str(&line).expect("stimulus json");
+                    let steps = b["steps"].as_array().unwrap().clone();
+                    let backend = b["backend"].as_str().unwrap().to_string();
+                    run_behaviour(&mut ctx, &backend, b["id"].clone(), &steps).await;
+                }
+            }
+            "seal-vectors" => {
+                // the hook derives the key on every call (~0.1 s): run the behaviours on several
+                // threads, each with its own context, and merge the events in order
+                let bs = vector_behaviours(thorough);
+                let n = bs.len();
+                let next = std::sync::atomic::AtomicUsize::new(0);
+                let done: Mutex<Vec<(usize, Vec<Value>, Vec<Value>)>> = Mutex::new(vec![]);
+                let workers = ctx.threads.min(6).max(1);
+                let inner = (ctx.threads / 2).max(1);
+                std::thread::scope(|sc| {
+                    for w in 0..workers {
+                        let (bs, next, done, abs) = (&bs, &next, &done, &abs);
+                        sc.spawn(move || loop {
+                            let i = next.fetch_add(1, std::sync::atomic::Ordering::SeqCst);
+                            if i >= n {
+                                break;
+                            }
+                            let mut c = Ctx::new(abs.join(format!("w{w}")), seed.wrapping_add(i as u64));
+                            c.threads = inner;
+                            crate::local_block_on(run_behaviour(&mut c, "raw", json!(i), &bs[i]));
+                            done.lock().unwrap().push((i, std::mem::take(&mut c.out), std::mem::take(&mut c.dump)));
+                        });
+                    }
+                });
+                let mut d = done.into_inner().unwrap();
+                d.sort_by_key(|x| x.0);
+                for (_, out, dump) in d {
+                    ctx.out.extend(out);
+                    for x in dump {
+                        if ctx.dump.len() < 64 {
+                            ctx.dump.push(x);
+                        }
+                    }
+                }
+            }
+            "seal-backends" => {
+                let only = crate::arg(args, "--backend");
+                let mut i = 0;
+                for backend in ["cloud", "http", "git"] {
+                    if only.as_deref().map(|o| o != backend).unwrap_or(false) {
+                        continue;
+                    }
+                    for b in backend_behaviours(backend, thorough) {
+                        run_behaviour(&mut ctx, backend, json!(i), &b).await;
+                        i += 1;
+                    }
+                }
+            }
+            other => {
+                eprintln!("sealdrv: unknown sub-command {other}");
+                std::process::exit(2);
+            }
+        }
+    });
+    ctx.finish(&out);
+    if let Some(d) = crate::arg(args, "--dump") {
+        let mut o = std::io::BufWriter::new(std::fs::File::create(d).unwrap());
+        for v in &ctx.dump {
+            writeln!(o, "{}", serde_json::to_string(v).unwrap()).unwrap();
+        }
+    }
+    drop(ctx);
+    let _ = std::fs::remove_dir_all(&abs);
 }
